@@ -199,4 +199,13 @@ theorem server_dies_on_drop_witness : serverUp ⟨false⟩ [.connect, .drop, .co
 
 example : serverUp ⟨true⟩ [.connect, .drop, .connect, .drop] = true := by decide
 
+/-- **Reattaching when nothing is listening fails with the process-not-found error** — also when the target crashed and
+left its socket file behind. -/
+theorem crashed_target_not_found (R : ReattachParams) (hR : R.Good) (socketFileLeft : Bool) :
+    reattachNotFound R socketFileLeft = true := by
+  simp [reattachNotFound, show R.probeConnects = true from hR]
+
+/-- a probe that only looks for the socket file reattaches to a crashed plugin's left-over file -/
+theorem stat_probe_witness : reattachNotFound ⟨false⟩ true = false := by decide
+
 end GoPlugin.Props.C15
